@@ -466,6 +466,56 @@ func exec(line string, panicMsg *string) (reply string) {
 			return "bad-op"
 		}
 		return showList(items(sets[0].RemoveEmptyBlob()))
+	case "gdf":
+		if len(args) != 3 {
+			return "bad-op"
+		}
+		i, ok := unhex(args[0])
+		e, err1 := strconv.ParseInt(args[1], 10, 32)
+		n, err2 := strconv.Atoi(args[2])
+		if !ok || err1 != nil || err2 != nil || n < 0 {
+			return "bad-op"
+		}
+		in, err := digest.NewInstanceName(i)
+		if err != nil {
+			return errLabel(err)
+		}
+		f, err := in.GetDigestFunction(remoteexecution.DigestFunction_Value(e), n)
+		if err != nil {
+			return errLabel(err)
+		}
+		return fmt.Sprintf("ok %d", int(f.GetEnumValue()))
+	case "mkf":
+		// what the CAS / AC servers do: the length of the hash is the fallback
+		if len(args) != 4 {
+			return "bad-op"
+		}
+		i, ok1 := unhex(args[0])
+		e, err1 := strconv.ParseInt(args[1], 10, 32)
+		h, ok2 := unhex(args[2])
+		z, err2 := strconv.ParseInt(args[3], 10, 64)
+		if !ok1 || !ok2 || err1 != nil || err2 != nil {
+			return "bad-op"
+		}
+		in, err := digest.NewInstanceName(i)
+		if err != nil {
+			return errLabel(err)
+		}
+		f, err := in.GetDigestFunction(remoteexecution.DigestFunction_Value(e), len(h))
+		if err != nil {
+			return errLabel(err)
+		}
+		return res(f.NewDigestFromProto(&remoteexecution.Digest{Hash: h, SizeBytes: z}))
+	case "combine":
+		if len(args) != 2 {
+			return "bad-op"
+		}
+		a, err1 := strconv.Atoi(args[0])
+		b, err2 := strconv.Atoi(args[1])
+		if err1 != nil || err2 != nil || a < 0 || b < 0 {
+			return "bad-op"
+		}
+		return strconv.Itoa(int(digest.KeyFormat(a).Combine(digest.KeyFormat(b))))
 	case "sx":
 		// a program over a register file of sets; later instructions run on sets *derived* by the
 		// real code (sub-slices, aliases, whatever its fast paths return), not on rebuilt copies
@@ -1063,6 +1113,71 @@ func oracleLine(line, reply, panicMsg string) *violation {
 		if !eqList(listOf(r), want) {
 			return &violation{"RemoveEmptyBlob is not the subset of non-empty blobs in sorted order", fmt.Sprintf("%q -> %q", line, reply)}
 		}
+	case "gdf", "mkf":
+		// independent of the model: which (enum, hash length) pairs name a digest function
+		if !validInstance(mustUnhex(args[0])) {
+			if r[0] == "ok" {
+				return &violation{"malformed digest accepted by the constructors", fmt.Sprintf("%q -> %q", line, reply)}
+			}
+			return nil
+		}
+		e, _ := strconv.ParseInt(args[1], 10, 32)
+		length := 0
+		if w[0] == "gdf" {
+			length, _ = strconv.Atoi(args[2])
+		} else {
+			length = len(mustUnhex(args[2]))
+		}
+		want := -1 // the function that must be selected; -1: must be rejected
+		if _, ok := fnInfo[int(e)]; ok && e > 0 {
+			want = int(e)
+		} else if e == 0 {
+			for _, f := range []int{3, 2, 1, 5, 6} { // the REv2 compatibility rule: MD5, SHA1, SHA256, SHA384, SHA512 by length
+				if fnInfo[f].hashLen == length {
+					want = f
+				}
+			}
+		}
+		if w[0] == "gdf" {
+			if r[0] == "ok" && want < 0 {
+				return &violation{"an unsupported digest function value was accepted", fmt.Sprintf("GetDigestFunction(%d, %d) -> function %s", e, length, r[1])}
+			}
+			if r[0] == "ok" && r[1] != strconv.Itoa(want) {
+				return &violation{"GetDigestFunction returned a different digest function than requested", fmt.Sprintf("GetDigestFunction(%d, %d) -> function %s, want %d", e, length, r[1], want)}
+			}
+			if r[0] != "ok" && want >= 0 {
+				return &violation{"a supported digest function value was rejected", fmt.Sprintf("GetDigestFunction(%d, %d) -> %q", e, length, reply)}
+			}
+			return nil
+		}
+		z, _ := strconv.ParseInt(args[3], 10, 64)
+		if r[0] == "ok" {
+			if want < 0 {
+				return &violation{"an unsupported digest function value was accepted", fmt.Sprintf("GetDigestFunction(%d, len(hash)=%d).NewDigestFromProto -> %q", e, length, mustUnhex(r[1]))}
+			}
+			d, ok := wellFormed(mustUnhex(r[1]))
+			if !ok || d.enum != want || d.hash != mustUnhex(args[2]) || d.size != z || d.inst != mustUnhex(args[0]) {
+				return &violation{"NewDigestFromProto returned a digest that differs from the message", fmt.Sprintf("%q -> %q", line, mustUnhex(r[1]))}
+			}
+		} else if want >= 0 && validD(dwords{mustUnhex(args[0]), want, mustUnhex(args[2]), z}) {
+			return &violation{"valid digest rejected by the constructors", fmt.Sprintf("%q -> %q", line, reply)}
+		}
+	case "combine":
+		a, _ := strconv.Atoi(args[0])
+		b, _ := strconv.Atoi(args[1])
+		with, without := int(digest.KeyWithInstance), int(digest.KeyWithoutInstance)
+		if (a != with && a != without) || (b != with && b != without) {
+			return nil
+		}
+		want := without
+		if a == with || b == with {
+			want = with
+		}
+		if reply != strconv.Itoa(want) {
+			name := map[int]string{with: "KeyWithInstance", without: "KeyWithoutInstance"}
+			return &violation{"Combine does not return the format with the most information",
+				fmt.Sprintf("%s.Combine(%s) = %s, want %s", name[a], name[b], reply, name[want])}
+		}
 	case "sx":
 		want, ok := refSetProgram(args)
 		if !ok {
@@ -1297,6 +1412,7 @@ func genValidCase(r *hx.Rand) []string {
 	}
 	s = append(s, fmt.Sprintf("rtwrite %s %s %d", dw, hs(genUUID(r)), comp()))
 	s = append(s, "rtproto "+dw, "rtcbin "+dw, "anc "+dw, "key "+dw+" 0", "key "+dw+" 1")
+	s = append(s, fmt.Sprintf("mkf %s %d %s %d", hs(d.inst), r.PickInt(d.enum, d.enum, 0), hs(d.hash), d.size))
 	// variants that share some but not all of function, hash, size, instance name
 	for i, n := 0, r.Range(1, 3); i < n; i++ {
 		v := d
@@ -1481,6 +1597,12 @@ func genMalformedCase(r *hx.Rand) []string {
 	s = append(s, "mk "+d.words())
 	if r.Chance(1, 2) {
 		s = append(s, "fromproto "+d.words())
+	}
+	// any int32 as digest function, with the hash length as fallback
+	{
+		e := r.PickInt(-1, 0, 0, 4, 7, 11, 12, 255, d.enum, d.enum, int(int32(r.Uint64())))
+		s = append(s, fmt.Sprintf("mkf %s %d %s %d", hs(d.inst), e, hs(d.hash), d.size),
+			fmt.Sprintf("gdf %s %d %d", hs(d.inst), e, r.PickInt(0, 32, 40, 64, 96, 128, len(d.hash), r.Intn(200))))
 	}
 	if r.Chance(1, 6) {
 		s = append(s, fmt.Sprintf("fromproto-nil %s %d", hs(d.inst), d.enum))
@@ -1694,6 +1816,7 @@ func TestC20(t *testing.T) {
 		"malformed stream (differential fuzzing under recover, the model predicting the error class): byte- and field-level mutations of valid resource names, arbitrary bytes, " +
 		"bad constructor arguments, bad instance names, truncated/overflowing compact binary; set families over small overlapping universes with duplicates and mixed instance names, "+
 		"plus programs of set operations whose arguments are sets derived by the real code (partitions = sub-slices, a set and itself, RemoveEmptyBlob/GetUnion results, earlier differences); " +
+		"GetDigestFunction / NewDigestFromProto over every digest function value of interest (negative, UNKNOWN, supported, gaps, past the end) x every fallback hash length of interest; KeyFormat.Combine on all four pairs; "+
 		"path.Join differential; exhaustive small scopes of instance names. A case is non-trivial when the real code executed >= 2 lines and at least one was accepted and one rejected or it has >= 5 lines; distinct by script hash")
 
 	otherFindings := 0
@@ -1891,6 +2014,38 @@ func exhaustive(run *hx.Run, handle func(name, stream string, script []string)) 
 					handle(fmt.Sprintf("exh/trunc/%d", count), "exhaustive", script)
 					count++
 				}
+			}
+		}
+	}
+	// KeyFormat.Combine: all four pairs
+	{
+		fs := []int{int(digest.KeyWithoutInstance), int(digest.KeyWithInstance)}
+		var script []string
+		for _, a := range fs {
+			for _, b := range fs {
+				script = append(script, fmt.Sprintf("combine %d %d", a, b))
+			}
+		}
+		handle(fmt.Sprintf("exh/combine/%d", count), "exhaustive", script)
+		count++
+	}
+	// GetDigestFunction(enum, fallbackHashLength): every enum value of interest (negative, UNKNOWN, the
+	// supported ones, the gaps VSO = 4 and MURMUR3 = 7, values past the end) x every fallback length of
+	// interest; and the same through NewDigestFromProto with the hash length as fallback (CAS / AC servers)
+	{
+		enums := []int{4, 7, 11, 12, -1, 0, 1, 2, 3, 5, 6, 8, 9, 10, 42, 100, 255, 256, 65536, 2147483647, -7, -2147483648}
+		lens := []int{0, 1, 7, 16, 20, 31, 32, 33, 40, 48, 56, 64, 96, 128, 129, 256}
+		for _, in := range []string{"", "hello/world"} {
+			for _, e := range enums {
+				var script []string
+				for _, n := range lens {
+					script = append(script, fmt.Sprintf("gdf %s %d %d", hs(in), e, n))
+					if n > 0 {
+						script = append(script, fmt.Sprintf("mkf %s %d %s %d", hs(in), e, hs(strings.Repeat("0123456789abcdef", 16)[:n]), n))
+					}
+				}
+				handle(fmt.Sprintf("exh/function/%d", count), "exhaustive", script)
+				count++
 			}
 		}
 	}
